@@ -12,9 +12,9 @@
 (*      LE64(address of a symbol named src_i), LE64(address of a symbol     *)
 (*      named dst_i); no other byte of the image changes.  Otherwise the    *)
 (*      build aborts, the image is byte-for-byte unchanged (no partial      *)
-(*      table), and when only symbols are missing exactly the redirects     *)
-(*      that lack one are reported with their source position and a name    *)
-(*      that is indeed missing.                                             *)
+(*      table), and when only symbols are missing every redirect that lacks *)
+(*      one is named in the output (by its source position or by one of its *)
+(*      symbols; the wording of diagnostics is not specified anywhere).     *)
 (*  LS  CompileLinkerScript.  `NAME equ VALUE` lines of constants.inc       *)
 (*      (blank and `;` lines skipped, last definition of a name wins)       *)
 (*      are inlined into linker.ld.in: the output is the script with every  *)
@@ -23,23 +23,22 @@
 (*      the build before linker.ld is written.                              *)
 (*  WO  GetOffsets / WriteOffsets.  The offsets table registered for        *)
 (*      exactly the toolchain's goX.Y is selected (none registered: abort,  *)
-(*      nothing written); go_asm_offsets.inc is the header comment, an      *)
-(*      empty line and one line `SYMBOL equ 0xHEX ; DEC` per table entry in *)
-(*      table order, identical on every build.                              *)
+(*      nothing written); go_asm_offsets.inc defines, as the assembler      *)
+(*      reads it (`SYMBOL equ NUMBER` lines), exactly the table's symbols   *)
+(*      with their offsets, identically on every build.                     *)
 (*  VE  Tool versions.  The version of objcopy is the text after the last   *)
 (*      space of the banner's first line, that of xorriso the field after   *)
 (*      the leading word `xorriso`; the tool is accepted (empty message)    *)
 (*      iff that is a version >= 2.26.0 resp. 1.5.0 in semantic-version     *)
-(*      precedence; otherwise the message says `older than` for a valid     *)
-(*      older version and `not a valid version` for anything else, quoting  *)
-(*      the text found.  VE-doc: every objcopy >= 2.26 / xorriso >= 1.5 is  *)
+(*      precedence (pre-releases precede their release); a rejection is a   *)
+(*      non-empty message that shows the version text found.  VE-doc: every objcopy >= 2.26 / xorriso >= 1.5 is  *)
 (*      accepted, also when the distribution appends a release suffix       *)
 (*      (`2.30-93.el8`, `2.35.1.20201123-1`, `1.5.6.pl02`) or the banner    *)
 (*      starts with `GNU xorriso`.                                          *)
 (*  CD  CheckDeps.  objcopy, xorriso, grub-mkrescue and nasm are looked up  *)
-(*      and probed in this order; every missing / failing / too old tool    *)
-(*      is listed, in this order, in one fatal message; with none the       *)
-(*      build continues with the paths found.                               *)
+(*      and probed in this order; if one is missing / failing / too old the *)
+(*      build aborts and every such tool is named in the output, in this    *)
+(*      order; with none the build continues with the paths found.          *)
 (*  MM  goMajorMinorVersion / GoVersion.  `go` + a version string           *)
 (*      MAJOR[.MINOR[.PATCH[-PRE][+BUILD]]] yields goMAJOR.MINOR (minor 0   *)
 (*      when absent), anything else is invalid; GoVersion applies this to   *)
@@ -72,7 +71,7 @@
 (*      order followed by go.o.                                             *)
 (*  CK  CompileKernel.  The go tool is asked (GOARCH set, cgo off,            *)
 (*      GOPATH=/kernel) for the build script of the kernel's main package;  *)
-(*      build.sh is a fixed prologue followed by that script with $WORK     *)
+(*      build.sh is a prologue followed by that script with $WORK           *)
 (*      replaced by the work directory and without the lines starting with  *)
 (*      `mv ` and the `<path/>buildid -w ...` calls - every other line      *)
 (*      unchanged, in order.  It is run, and the entry point is exported:   *)
@@ -121,7 +120,8 @@ ZeroW == <<0, 0, 0, 0>>
 (* in:  syms = <<name, addr>>*, reds = <<src, dst>>*, symtab (bool), sec (-1: no section, else its size in bytes),    *)
 (*      fill (word the section and the bytes after it are filled with)                                                *)
 (* out: res, words (the 8-byte words from the section start after the run), outside (bytes changed elsewhere),         *)
-(*      errs = <<position, "src"|"dst", name>>*                                                                        *)
+(*      named = for each redirect: does its position text, or its source or destination symbol as a word, occur in      *)
+(*      any line the tool printed (the wording of the diagnostics is not specified)                                     *)
 CrIdx(in, name) == {j \in 1..Len(in.syms) : in.syms[j][1] = name}
 CrNonZero(in, name) == {in.syms[j][2] : j \in CrIdx(in, name)} \ {ZeroW}
 CrLast(in, name) == IF CrIdx(in, name) = {} THEN ZeroW ELSE in.syms[MaxOf(CrIdx(in, name))][2]
@@ -144,7 +144,7 @@ CrJudge(in, out, D) ==
   << <<"CR", out.res \notin {"ok", "exit"}, <<"the build neither completed nor aborted", out.res>> >>,
      <<"CR", ab /\ out.res = "ok", <<"the build must abort", "no symbol table or section", CrNoTable(in),
                                      "redirects without symbol", CrBad(in, D), "section too small", CrTooSmall(in, D)>> >>,
-     <<"CR", ~ab /\ out.res = "exit", <<"the build must succeed: every symbol is defined", "reported", out.errs>> >>,
+     <<"CR", ~ab /\ out.res = "exit", <<"the build must succeed: every symbol is defined">> >>,
      <<"CR", ab /\ (out.outside # 0 \/ CrTouched(in, out) # {}),
              <<"the image changed although the build must abort (partial table)", "words", CrTouched(in, out), "other bytes", out.outside>> >>,
      <<"CR", ~ab /\ out.res = "ok" /\ Len(out.words) < 2 * Len(in.reds), <<"harness: window shorter than the table">> >>,
@@ -152,12 +152,9 @@ CrJudge(in, out, D) ==
              <<"table is not <<src_i, dst_i>> in slice order followed by untouched bytes",
                "word", IF CrBadWords(in, out, D) # {} THEN MinOf(CrBadWords(in, out, D)) ELSE 0>> >>,
      <<"CR", ~ab /\ out.res = "ok" /\ out.outside # 0, <<"bytes outside the section window changed", out.outside>> >>,
-     <<"CR", ab /\ out.res = "exit" /\ ~CrNoTable(in) /\ ~CrTooSmall(in, D) /\
-             ( {out.errs[k][1] : k \in 1..Len(out.errs)} # {CrPos(i) : i \in CrBad(in, D)}
-               \/ \E k \in 1..Len(out.errs) : \E i \in CrBad(in, D) :
-                    out.errs[k][1] = CrPos(i) /\ <<out.errs[k][2], out.errs[k][3]>> \notin CrMissing(in, i, D) ),
-             <<"the redirects reported are not the ones that lack a symbol", "reported", out.errs,
-               "lacking", {CrPos(i) : i \in CrBad(in, D)}>> >> >>
+     <<"CR", ab /\ out.res = "exit" /\ ~CrNoTable(in) /\ ~CrTooSmall(in, D) /\ \E i \in CrBad(in, D) : ~out.named[i],
+             <<"a redirect that lacks a symbol is not named in the tool's output (neither its position nor one of its symbols)",
+               "lacking", CrBad(in, D), "named", out.named>> >> >>
 
 --------------------------------------------------------------------------
 (* LS - CompileLinkerScript *)
@@ -199,18 +196,16 @@ LsDet(in, pre, D) == ~("LinkerMapOrder" \in D /\ Cardinality(pre) > 1)
 (* in:  reg = <<version, <<symbol, offset>>* >>*, ver   out: res, offs, written, text                        *)
 WoTables(in) == {in.reg[i][2] : i \in {j \in 1..Len(in.reg) : in.reg[j][1] = in.ver}}
 WoAbort(in) == WoTables(in) = {} \/ WoTables(in) = {<<>>}
-WoLine(e) == e[1] \o " equ 0x" \o Str(HexOf(e[2])) \o " ; " \o Str(DecOf(e[2])) \o "\n"
-RECURSIVE WoBody(_, _)
-WoBody(t, i) == IF i > Len(t) THEN "" ELSE WoLine(t[i]) \o WoBody(t, i + 1)
-WoText(ver, t) == ";; Code generated by WriteOffsets for " \o ver \o " -- DO NOT EDIT.\n\n" \o WoBody(t, 1)
+\* defs: the definitions of go_asm_offsets.inc as nasm reads them (`NAME equ NUMBER`, comments and blank lines ignored; a line
+\* nasm would not accept as such shows up as <<"?", ...>>)
+SameBag(a, b) == \A x \in Range(a) \cup Range(b) : Cardinality({i \in 1..Len(a) : a[i] = x}) = Cardinality({i \in 1..Len(b) : b[i] = x})
 WoJudge(in, out, D) ==
   << <<"WO", out.res \notin {"ok", "exit"}, <<"the step neither completed nor aborted", out.res>> >>,
      <<"WO", WoAbort(in) /\ (out.res = "ok" \/ out.written), <<"no table is registered for this version: the build must abort", in.ver>> >>,
      <<"WO", ~WoAbort(in) /\ out.res # "ok", <<"a table is registered for this version", in.ver>> >>,
      <<"WO", ~WoAbort(in) /\ out.res = "ok" /\ {out.offs} # WoTables(in), <<"selected table is not the one registered for", in.ver, "got", out.offs>> >>,
-     LET bad == ~WoAbort(in) /\ out.res = "ok" /\ {out.offs} = WoTables(in) /\ (~out.written \/ out.text # WoText(in.ver, out.offs)) IN
-     <<"WO", bad, IF bad THEN <<"go_asm_offsets.inc is not header + one `SYM equ 0xHEX ; DEC` line per entry in table order",
-                                "got", out.text, "want", WoText(in.ver, out.offs)>> ELSE <<>> >> >>
+     <<"WO", ~WoAbort(in) /\ out.res = "ok" /\ {out.offs} = WoTables(in) /\ (~out.written \/ ~SameBag(out.defs, out.offs)),
+             <<"go_asm_offsets.inc does not define exactly the symbols of the table with their offsets", "got", out.defs>> >> >>
 
 --------------------------------------------------------------------------
 (* VE - tool version banners.  in: tool, banner (characters)   out: msg *)
@@ -227,49 +222,43 @@ VeToken(tool, b) ==
        IN TrimSpace(IF i = 0 THEN r ELSE Upto(r, i - 1))
 \* the text a reader of the banner takes for the version (VE-doc): the same, with `GNU ` in front of xorriso skipped
 VeDocToken(tool, b) == IF tool = "xorriso" /\ HasPrefix(b, <<"G", "N", "U", " ">>) THEN VeToken(tool, From(b, 5)) ELSE VeToken(tool, b)
-VeMsgFor(tool, tok) ==
-  LET w == VeWant(tool) IN
-  IF ~VerValid(tok) THEN Bq(tool) \o ": failed to detect version: " \o Quoted(<<"v">> \o tok) \o " is not a valid version"
-  ELSE IF VerCmpRelease(tok, w[1], w[2], w[3]) < 0
-       THEN Bq(tool) \o ": version v" \o Str(tok) \o " is older than " \o VeWantS(tool) \o ": install newer " \o Bq(VePkg(tool))
-       ELSE ""
-VeMsg(tool, b) == VeMsgFor(tool, VeToken(tool, b))
+VeAccept(tool, tok) == LET w == VeWant(tool) IN VerValid(tok) /\ VerCmpRelease(tok, w[1], w[2], w[3]) >= 0
 \* distribution style: N.N or N.N.N followed by a release suffix that makes it an invalid semantic version
 VeDistro(tok) ==
   LET S == {k \in 1..(Len(tok) - 1) : tok[k] \in {"-", "."} /\ tok[k + 1] \in Digits \cup LowerS \cup UpperS /\
                                   LET c == SplitChar(Upto(tok, k - 1), ".") IN
                                   Len(c) \in 2..3 /\ \A i \in 1..Len(c) : IsCanonNum(c[i])} IN
   IF VerValid(tok) \/ S = {} THEN <<>> ELSE Upto(tok, MaxOf(S) - 1)
-VeDocAllows(tool, b, msg) ==
+VeDocAllows(tool, b, ok) ==
   LET tok == VeDocToken(tool, b)  core == VeDistro(tok)  w == VeWant(tool) IN
-  IF core = <<>> THEN msg = VeMsgFor(tool, tok)
-  ELSE (msg = "") <=> VerCmpRelease(core, w[1], w[2], w[3]) >= 0
+  IF core = <<>> THEN ok = VeAccept(tool, tok)
+  ELSE ok <=> VerCmpRelease(core, w[1], w[2], w[3]) >= 0
 VeDevOf(tool, b) == IF VeDocToken(tool, b) # VeToken(tool, b) THEN "GnuXorrisoBanner" ELSE "VersionSuffix"
+\* a text that a message can show verbatim (nothing a quoting function would escape)
+VePlain(tok) == tok # <<>> /\ \A i \in 1..Len(tok) : tok[i] \notin {"\n", "\t", "\r", "\"", "\\"}
+\* out: ok (accepted: empty message), msg (the message, characters)
 VeJudge(in, out, D) ==
-  << <<"VE", (VeDevOf(in.tool, in.banner) \notin D /\ ~VeDocAllows(in.tool, in.banner, out.msg))
-             \/ (VeDevOf(in.tool, in.banner) \in D /\ out.msg # VeMsg(in.tool, in.banner)),
-             <<"wrong verdict on the tool's version banner", "version text", Str(VeDocToken(in.tool, in.banner)),
-               "got", out.msg, "want", VeMsg(in.tool, in.banner)>> >> >>
+  << <<"VE", (VeDevOf(in.tool, in.banner) \notin D /\ ~VeDocAllows(in.tool, in.banner, out.ok))
+             \/ (VeDevOf(in.tool, in.banner) \in D /\ out.ok # VeAccept(in.tool, VeToken(in.tool, in.banner))),
+             <<"wrong verdict on the tool's version banner", "version text", Str(VeDocToken(in.tool, in.banner)), "accepted", out.ok>> >>,
+     <<"VE", ~out.ok /\ \A u \in {VeToken(in.tool, in.banner), VeDocToken(in.tool, in.banner)} : VePlain(u) /\ IndexOfSub(out.msg, u) = 0,
+             <<"the rejection does not show the version text that was found", Str(VeToken(in.tool, in.banner)), "message", Str(out.msg)>> >> >>
 
 --------------------------------------------------------------------------
-(* CD - CheckDeps.  in: tools = <<name, "absent"|"present", exit code, banner>> (4, fixed order)   out: res, log (lines), paths *)
-CdInstall(t) == CASE t = "objcopy" -> "binutils" [] t = "xorriso" -> "xorriso" [] t = "grub-mkrescue" -> "grub-pc-bin" [] OTHER -> "nasm"
-CdMsg(t) == IF t[2] = "absent" THEN Bq(t[1]) \o " could not be found: install " \o Bq(CdInstall(t[1]))
-            ELSE IF t[3] # 0 THEN Bq(t[1]) \o ": failed to determine version: exit status " \o ToString(t[3])
-            ELSE IF t[1] \in {"objcopy", "xorriso"} THEN VeMsg(t[1], t[4]) ELSE ""
-CdFailed(in) == SelectSeq([i \in 1..Len(in.tools) |-> CdMsg(in.tools[i])], LAMBDA m : m # "")
-CdHeader == "kbuild: missing at least one dependency:"
+(* CD - CheckDeps.  in: tools = <<name, "absent"|"present", exit code, banner>> (4, fixed order) *)
+\* out: res, paths, mention = for each tool the offset of the first occurrence of its name in everything the run printed (-1: none)
+CdFails(t) == t[2] = "absent" \/ t[3] # 0 \/ (t[1] \in {"objcopy", "xorriso"} /\ ~VeAccept(t[1], VeToken(t[1], t[4])))
+CdFailed(in) == {i \in 1..Len(in.tools) : CdFails(in.tools[i])}
 CdJudge(in, out, D) ==
-  LET f == CdFailed(in)
-      H == {i \in 1..Len(out.log) : out.log[i] = CdHeader}
-      tail == IF H = {} THEN <<>> ELSE From(out.log, MinOf(H) + 1)
-  IN
+  LET f == CdFailed(in) IN
   << <<"CD", out.res \notin {"ok", "exit"}, <<"the step neither completed nor aborted", out.res>> >>,
-     <<"CD", f # <<>> /\ out.res = "ok", <<"a dependency is missing, failing or too old: the build must abort", f>> >>,
-     <<"CD", f = <<>> /\ out.res # "ok", <<"all dependencies are fine: the build must continue", out.log>> >>,
-     <<"CD", f # <<>> /\ out.res = "exit" /\ tail # [i \in 1..Len(f) |-> "\t" \o f[i]],
-             <<"the fatal message does not list exactly the failed dependencies in probing order", "got", out.log, "want", f>> >>,
-     <<"CD", f = <<>> /\ out.res = "ok" /\ out.paths # [i \in 1..Len(in.tools) |-> in.tools[i][1]],
+     <<"CD", f # {} /\ out.res = "ok", <<"a dependency is missing, failing or too old: the build must abort", f>> >>,
+     <<"CD", f = {} /\ out.res # "ok", <<"all dependencies are fine: the build must continue">> >>,
+     <<"CD", f # {} /\ out.res = "exit" /\ \E i \in f : out.mention[i] < 0,
+             <<"a failed dependency is not named in the output", "failed", f, "first mentions", out.mention>> >>,
+     <<"CD", f # {} /\ out.res = "exit" /\ \E i, j \in f : i < j /\ out.mention[i] >= 0 /\ out.mention[j] >= 0 /\ out.mention[i] >= out.mention[j],
+             <<"the failed dependencies are not listed in probing order", "failed", f, "first mentions", out.mention>> >>,
+     <<"CD", f = {} /\ out.res = "ok" /\ out.paths # [i \in 1..Len(in.tools) |-> in.tools[i][1]],
              <<"the tool paths recorded are not the ones found", out.paths>> >> >>
 
 --------------------------------------------------------------------------
@@ -346,8 +335,7 @@ BwJudge(in, out, D) ==
   LET v == Str(in.ver)  name == "SymbolOffsetsForGo" \o Str(BwSuffix(in.ver)) IN
   << <<"BW", out.res # "ok", <<"writing the table failed", out.res>> >>,
      <<"BW", out.res = "ok" /\ ~out.parsed, <<"the generated file is not a Go source file">> >>,
-     <<"BW", out.res = "ok" /\ out.parsed /\ out.header # "// Code generated by gen-version-data.go for " \o v \o " -- DO NOT EDIT.",
-             <<"first line is not the generated-code marker", out.header>> >>,
+     <<"BW", out.res = "ok" /\ out.parsed /\ ~out.marker, <<"first line is not a `// Code generated ... DO NOT EDIT.` marker", out.header>> >>,
      <<"BW", out.res = "ok" /\ out.parsed /\ (out.pkg # in.pkg \/ out.key # v \/ out.varname # name \/ out.initvar # name),
              <<"the file does not register table", name, "under key", v, "in package", in.pkg,
                "got", <<out.pkg, out.key, out.initvar, out.varname>> >> >>,
@@ -415,15 +403,17 @@ CkMv == <<"m", "v", " ">>
 CkBuildid == <<"b", "u", "i", "l", "d", "i", "d">>
 CkDashW == <<" ", "-", "w", " ">>
 CkKmain == <<"k", "m", "a", "i", "n", ".", "K", "m", "a", "i", "n">>
-CkProlog == "set -e\nexport GOOS=linux\nexport GOARCH=amd64\nexport CGO_ENABLED=0\nalias pack='go tool pack'\n\n"
 CkBase(w) == LET i == LastIndexOf(w, "/") IN IF i = 0 THEN w ELSE From(w, i + 1)
 CkKept(l) == LET i == IndexOf(l, " ") IN
              /\ ~HasPrefix(l, CkMv)
              /\ ~(i > 0 /\ CkBase(Upto(l, i - 1)) = CkBuildid /\ HasPrefix(From(l, i), CkDashW))
-RECURSIVE CkBody(_, _)
-CkBody(ls, i) == IF i > Len(ls) THEN ""
-                 ELSE LET l == ReplaceAll(ls[i], CkWorkVar, CkWorkDir) IN (IF CkKept(l) THEN Str(l) \o "\n" ELSE "") \o CkBody(ls, i + 1)
-CkScript(in) == CkProlog \o CkBody(in.lines, 1)
+CkSubst(in) == [i \in 1..Len(in.lines) |-> ReplaceAll(in.lines[i], CkWorkVar, CkWorkDir)]
+CkKeptLines(in) == LET k == SelectSeq(CkSubst(in), CkKept) IN [i \in 1..Len(k) |-> Str(k[i])]
+\* build.sh (out.lines) = a prologue that holds none of the script's lines, followed by exactly the kept lines
+CkScriptOk(in, out) ==
+  LET k == CkKeptLines(in)  n == Len(out.lines) - Len(k)
+      all == {Str(CkSubst(in)[i]) : i \in 1..Len(in.lines)} \ {""}
+  IN n >= 0 /\ SubSeq(out.lines, n + 1, Len(out.lines)) = k /\ \A i \in 1..n : out.lines[i] \notin all
 CkHits(in) == {i \in 1..Len(in.nm) : HasSuffix(TrimSpace(in.nm[i]), CkKmain)}
 CkLine(in) == TrimSpace(in.nm[MinOf(CkHits(in))])
 CkNoAddr(in) == in.nmrc # 0 \/ CkHits(in) = {} \/ IndexOf(CkLine(in), " ") = 0
@@ -440,9 +430,9 @@ CkJudge(in, out, D) ==
      <<"CK", out.goargs # CkGo \/ out.goenv # "GOARCH=amd64 CGO_ENABLED=0 GOPATH=/kernel",
              <<"the go tool is not asked for the build script of the kernel's main package in the kernel's environment", out.goargs, out.goenv>> >>,
      <<"CK", in.buildrc # 0 /\ out.written, <<"build.sh written although the go tool failed">> >>,
-     LET bad == in.buildrc = 0 /\ (~out.written \/ out.script # CkScript(in)) IN
-     <<"CK", bad, IF bad THEN <<"build.sh is not the prologue + the script without `mv` and `buildid -w` lines, $WORK replaced", "got", out.script,
-                                "want", CkScript(in)>> ELSE <<>> >>,
+     LET bad == in.buildrc = 0 /\ (~out.written \/ ~CkScriptOk(in, out)) IN
+     <<"CK", bad, IF bad THEN <<"build.sh is not a prologue + the script without `mv` and `buildid -w` lines, $WORK replaced", "got", out.lines,
+                                "want (after the prologue)", CkKeptLines(in)>> ELSE <<>> >>,
      <<"CK", (in.buildrc # 0 \/ CkNoAddr(in)) /\ out.objcopy # <<>>, <<"objcopy run although the entry point's address is unknown", out.objcopy>> >>,
      LET bad == in.buildrc = 0 /\ ~CkNoAddr(in) /\ out.objcopy # <<CkObjcopy(in)>> IN
      <<"CK", bad, IF bad THEN <<"objcopy is not told to add kernel.Kmain at the address of kmain.Kmain and to globalize g0, m0, physPageSize",
